@@ -226,7 +226,9 @@ func (s *serverSocket) close(reason Reason, err error) {
 		close(s.closeChan)
 		defer s.onClose(s.id)
 
-		defer s.getCallbacks().OnClose(reason, err)
+		// Report the close before closing the transport: closing a WebSocket
+		// waits for the peer's close frame (for 5 seconds if the peer is gone).
+		s.getCallbacks().OnClose(reason, err)
 
 		if reason != ReasonTransportClose && reason != ReasonTransportError {
 			s.transportMu.RLock()
